@@ -30,6 +30,7 @@ func zzH_C02() {
 	}
 	calls := make([]*Call, K)
 	replies := make([][]byte, K)
+	closedAtEnd := false
 	vGo("issuer", func() {
 		for i := 0; i < K; i++ {
 			args := []byte{byte(i)}
@@ -56,8 +57,14 @@ func zzH_C02() {
 		} else {
 			m.fail(io.EOF)
 		}
+		vQuiesce()
+		conn.Close() // whatever happened before (write errors included), Close closes the socket
+		closedAtEnd = true
 	})
 	vAtEnd(func() {
+		if closedAtEnd {
+			vAssert(m.nCloses >= 1, "socket-closed")
+		}
 		vAssert(vBlocked() == 0, "no-goroutine-stuck")
 		for i := 0; i < K; i++ {
 			c := calls[i]
